@@ -100,7 +100,11 @@ fn tombstone_violations(peer: &str, s: &Snapshot) -> Vec<Violation> {
             if e.src == d.src && e.dest == d.dest && e.label == d.label && e.cdate <= d.cdate {
                 // the deleted instance itself came back, or an older instance of the same reference (created on
                 // another peer before the deleted one, by somebody who had not seen it) is stored beside the record
-                let sig = if e.cdate == d.cdate {
+                let sig = if e.cdate == d.cdate && d.deletion_date <= e.cdate {
+                    // created, deleted and created again within one millisecond: the new instance carries the
+                    // creation date the deletion record names
+                    "resurrection:edge:re-added-in-the-millisecond-of-its-deletion"
+                } else if e.cdate == d.cdate {
                     "resurrection:edge"
                 } else {
                     "resurrection:edge:older-instance-of-the-reference"
@@ -461,7 +465,7 @@ pub fn run_sync_case(case: &SyncCase, ctx: &RunCtx, full_query: bool) -> SyncRes
                                 .chain(raw[i].edges.iter())
                                 .find(|x| x.src == e.src && x.dest == e.dest && x.label == e.label)
                                 .map(|x| (x.cdate, x.key.clone()));
-                            let cause = match (na, nb, cd) {
+                            let cause = match (na, nb, cd.clone()) {
                                 // the reference was added in a version of the row that lost against the stored one (or
                                 // tied with it: same millisecond, another author)
                                 (Some(a), Some(b), Some((c, k))) if a == b && (c < a.mdate || (c == a.mdate && k != a.key)) => {
@@ -470,7 +474,14 @@ pub fn run_sync_case(case: &SyncCase, ctx: &RunCtx, full_query: bool) -> SyncRes
                                 (Some(a), Some(b), _) if a != b => continue, // follows from the node difference
                                 (None, _, _) | (_, None, _) => continue,     // source row differs
                                 _ => {
-                                    if moved_rows.contains(&e.src) {
+                                    let record_names_it = cd.as_ref().map(|(c, _)| {
+                                        raw[0].edge_dels.iter().chain(raw[i].edge_dels.iter()).any(|d| d.src == e.src && d.dest == e.dest && d.label == e.label && d.cdate == *c && d.deletion_date <= *c)
+                                    }).unwrap_or(false);
+                                    if record_names_it {
+                                        // created, deleted and created again within one millisecond: the peers that receive the
+                                        // deletion record leave the reference out
+                                        "reference-re-added-in-the-millisecond-of-its-deletion".to_string()
+                                    } else if moved_rows.contains(&e.src) {
                                         "reference-change-concurrent-with-move-of-its-source-row".to_string()
                                     } else if tombs.contains_key(&e.src) || tombs.contains_key(&e.dest) {
                                         "reference-of-row-revived-after-deletion".to_string()
